@@ -86,16 +86,29 @@ func IsoCheck(c IsoCase) (pbt.Info, error) {
 	if len(anyElems) != isoN {
 		panic("refl: the any domain must have isoN elements")
 	}
-	ci, ca := c.Cfg, c.Cfg
-	ci.Elem, ca.Elem = "int13", "any"
-	ri, ra := NewRunner(ci), NewRunner(ca)
+	ci, ca, cw := c.Cfg, c.Cfg, c.Cfg
+	ci.Elem, ca.Elem, cw.Elem = "int13", "any", "wide"
+	ri, ra, rw := NewRunner(ci), NewRunner(ca), NewRunner(cw)
 	effective, special := 0, false
 	for i, s := range c.Steps {
 		if isoExcluded[s.M] {
 			continue
 		}
 		before := ri.Size()
-		xi, xa := ri.Do(s), ra.Do(s)
+		// the wide struct instantiation (W{ID: k} corresponds to k) first
+		xi, xw := ri.Do(s), rw.Do(s)
+		if xi.Called != xw.Called {
+			return info, fmt.Errorf("%s: step %d %s could be applied to only one instantiation (%q / %q)", c.Cfg.Kind, i, s.M, xi.Why, xw.Why)
+		}
+		if xi.Called {
+			if vi, vw := untyped(xi.Vals), untyped(xw.Vals); !reflect.DeepEqual(vi, vw) || !reflect.DeepEqual(xi.ItLog, xw.ItLog) {
+				return info, fmt.Errorf("%s: step %d %s returns %v %v on Container[int] but the corresponding %v %v on Container[W] (W an 80-byte struct, shown by its ID)", c.Cfg.Kind, i, s.M, vi, xi.ItLog, vw, xw.ItLog)
+			}
+			if oi, ow := isoObservers(ri), isoObservers(rw); !reflect.DeepEqual(oi, ow) {
+				return info, fmt.Errorf("%s: after step %d %s Container[int] observes %v but Container[W] the non-corresponding %v (W an 80-byte struct, shown by its ID)", c.Cfg.Kind, i, s.M, oi, ow)
+			}
+		}
+		xa := ra.Do(s)
 		if xi.Called != xa.Called {
 			return info, fmt.Errorf("%s: step %d %s could be applied to only one instantiation (%q / %q)", c.Cfg.Kind, i, s.M, xi.Why, xa.Why)
 		}
